@@ -70,6 +70,10 @@ def gen_inputs(key, r):
     if base == 'distance_wei_floyd:inv':
         A = _dir(r, n, p=float(r.choice([.2, .4, .7]))) if r.random_sample() < .6 else _und(r, n, p=float(r.choice([.3, .6])))
         return dict(adjacency=np.abs(A), transform='inv')
+    if base == 'randomizer_bin_und:sparse':
+        A = (_und(r, n + int(r.randint(0, 3)), p=float(r.choice([.2, .3, .4]))) != 0).astype(float)
+        np.fill_diagonal(A, 0)
+        return dict(R=A, alpha=float(r.choice([.5, 1.])), seed=Scripted((), fallback_seed=int(r.randint(1 << 30)), max_draws=20000))
     if base in ('distance_wei_floyd', 'distance_wei_floyd:paths'):
         A = _dir(r, n, p=float(r.choice([.2, .4, .7]))) if r.random_sample() < .6 else _und(r, n, p=float(r.choice([.3, .6])))
         return dict(adjacency=np.abs(A), transform=None)
